@@ -9,6 +9,7 @@ import Proofs.C11Sess
 import Proofs.C11Ops
 import Proofs.C11Iter
 import Proofs.C11Conc
+import Proofs.C11Rot
 /-! # C11 — host selection offers each live node once, nearest and replicas first (property theorems)
 
 Model: `Model/Policies.lean` (cowHostList, roundRobbin, roundRobinHostPolicy / dcAwareRR / rackAwareRR,
@@ -1019,6 +1020,206 @@ theorem C11_cex_cow_unlocked_lost_update :
     (Cow.run false 2 fs (Cow.init [cexW3]) sched).shared = [cexW3, cexW2] ∧
     (Cow.run true 2 fs (Cow.init [cexW3]) (sched ++ [1, 1, 1, 1, 1])).allDone 2 = true ∧
     (Cow.run true 2 fs (Cow.init [cexW3]) (sched ++ [1, 1, 1, 1, 1])).shared = [cexW3, cexW1, cexW2] := by
+  decide
+
+/-! ## rotation of the starting host PER TIER (fourth round; seeded change C11-8)
+
+Property text: "for the round-robin based policies successive queries rotate the starting host within a tier so
+load is spread". `C11_rr_rotates_partial` says it for the positions of ONE layer; a change that keeps the local
+rack rotating but feeds the farther tiers a reduced shift (C11-8: `nextStartOffset %= len(local rack)`) keeps
+every sequence complete, duplicate free and tier ordered. What it breaks is stated here for ALL tier shapes:
+the ONE shared shift moves the start position of EVERY tier on by one per pick (`C11_rr_rotates_tiers_partial`),
+hence over whole periods every start position of a tier is used equally often (`C11_rotation_histogram`), hence
+the first-host histogram of every tier over ANY number of successive picks is balanced — the verdict of the
+spec-backed op `rotate` (`C11_rotation_balanced_partial`). As everywhere for the iterator of the code: below the
+counter bound of KF-C11-3. -/
+
+/-- the state of the non-vacuity examples and of the regression below: rack-aware, tiers of 1 / 4 / 3 hosts -/
+def rotP : Pol :=
+  { Pol.new .rack 0 0 with
+    l0 := [⟨1, 1, 0, 0, []⟩]
+    l1 := [⟨2, 2, 0, 1, []⟩, ⟨3, 3, 0, 1, []⟩, ⟨4, 4, 0, 1, []⟩, ⟨5, 5, 0, 1, []⟩]
+    l2 := [⟨6, 6, 1, 0, []⟩, ⟨7, 7, 1, 0, []⟩, ⟨8, 8, 1, 0, []⟩] }
+
+theorem filter_true_id (l : List Host) : l.filter (fun _ => true) = l :=
+  List.filter_eq_self.mpr (fun _ _ => rfl)
+
+theorem repeat_pick (up : Nat → Bool) : ∀ (j : Nat) (p : Pol), p.ctr + j < 18446744073709551616 →
+    Nat.repeat (fun q => (q.pick up).1) j p = { p with ctr := p.ctr + j } := by
+  intro j
+  induction j with
+  | zero => intro p _; rfl
+  | succ j ih =>
+    intro p h
+    show (fun q : Pol => (q.pick up).1) (Nat.repeat (fun q => (q.pick up).1) j p) = _
+    rw [ih p (by omega)]
+    show Pol.bump _ = _
+    unfold Pol.bump
+    simp only
+    rw [Nat.mod_eq_of_lt (by omega)]
+    rfl
+
+/-- ROTATION PER TIER, for all tier shapes (any sizes of the three lists, also 0 and 1, sizes that do not divide
+each other) and any up/down state: in every policy state with the list invariant, `j` successive picks later
+(below the counter bound) the counter stands at `ctr + j`, the iterator of the code does not panic, and from
+EVERY tier `t` — not only the first non-empty one — the first host it offers is the first up host of tier `t`'s
+list scanned cyclically from list position `(ctr + j + 2) mod n_t`: one pick later every tier starts one
+position further. -/
+theorem C11_rr_rotates_tiers_partial (p : Pol) (hp : Inv p) (up : Nat → Bool) (j t : Nat) (ht : t < 3)
+    (hb : ∀ l ∈ p.layers, p.ctr + j + 1 + l.length < 9223372036854775808) :
+    let q : Pol := { p with ctr := p.ctr + j }
+    Nat.repeat (fun q => (q.pick up).1) j p = q ∧
+    q.pickScan up = ⟨rrSeq up (p.ctr + j + 1) [p.l0, p.l1, p.l2], false⟩ ∧
+    tierFirst p.tier t (q.pickScan up).offered =
+      firstFrom (fun h => up h.id) (p.getLayer t) ((p.ctr + j + 2) % (p.getLayer t).length) := by
+  intro q
+  have hc : p.ctr + j < 18446744073709551616 := by
+    have : p.layers ≠ [] := by unfold Pol.layers; split <;> simp
+    obtain ⟨l, hl⟩ := List.exists_mem_of_ne_nil _ this
+    have := hb l hl
+    omega
+  have hq : Inv q := ⟨hp.a0, hp.a1, hp.a2, hp.t0, hp.t1, hp.t2⟩
+  have hs : q.pickScan up = ⟨rrSeq up (p.ctr + j + 1) [p.l0, p.l1, p.l2], false⟩ := by
+    rw [pickScan_small q up (fun l hl => hb l hl)]
+    unfold Pol.pickSeq
+    rw [rrSeq_layers q hq]
+  refine ⟨repeat_pick up j p hc, hs, ?_⟩
+  rw [hs]
+  have := tierFirst_rrSeq p hp up (fun _ => true) (p.ctr + j + 1) t ht
+  rw [filter_true_id] at this
+  simp only
+  rw [this, firstOf_eq]
+  have e : (fun h : Host => up h.id && true) = (fun h => up h.id) := by funext h; simp
+  rw [e]
+
+/-- non-vacuity, shape 1/4/3 (rack-aware): the third successive pick offers the local rack's only host, then the
+local-DC tier starting at ITS position 0 and the remote tier starting at ITS position 1; the fourth one position
+further in every tier -/
+example :
+    ((Nat.repeat (fun q => (q.pick (fun _ => true)).1) 2 rotP).pickScan (fun _ => true)).offered.map (·.id)
+      = [1, 2, 3, 4, 5, 7, 8, 6] ∧
+    ((Nat.repeat (fun q => (q.pick (fun _ => true)).1) 3 rotP).pickScan (fun _ => true)).offered.map (·.id)
+      = [1, 3, 4, 5, 2, 8, 6, 7] := by decide
+
+/-- THE HISTOGRAM over whole periods, for every layer (any size), every predicate "can be offered" (`f`: up, and
+not offered by the replica phases), every counter value `c` and every number `k` of periods: over the `k·n`
+successive shifts `c+1 … c+k·n` a host `h` is the first host offered from the layer exactly `k·w(h)` times, where
+the SPECIFICATION's weight `w(h)` = the number of list positions from which `h` is the first host that can be
+offered scanning cyclically (`specWeight`; every start position is used `k` times). A host that can be offered has
+`1 ≤ w(h)`, and `w(h) ≤ 1 + d` with `d` listed hosts that cannot be offered; with every listed host up and
+unused, `w(h) = 1`: every host is the first of its tier exactly `k` times. -/
+theorem C11_rotation_histogram (f : Host → Bool) (l : List Host) (h : Host) (c k : Nat) (hl : l ≠ []) :
+    (List.range (k * l.length)).countP (fun p => firstOf f (c + 1 + p) l == some h) = k * specWeight f l h ∧
+    (h ∈ l → f h = true → 1 ≤ specWeight f l h) ∧
+    (l.Nodup → specWeight f l h ≤ 1 + l.countP (fun x => !f x)) ∧
+    (l.Nodup → (∀ x ∈ l, f x = true) → h ∈ l → specWeight f l h = 1) := by
+  have hpos : 0 < l.length := List.length_pos_iff.mpr hl
+  have h1 := firstOf_hist f l h c (k * l.length) hl
+  have e1 : k * l.length / l.length = k := Nat.mul_div_cancel k hpos
+  have e2 : ceilDiv (k * l.length) l.length = k := by
+    unfold ceilDiv
+    rw [e1, Nat.mul_mod_left]
+    simp
+  rw [e1, e2] at h1
+  refine ⟨Nat.le_antisymm h1.2 h1.1, specWeight_pos f l h, fun hn => specWeight_le f l hn h, ?_⟩
+  intro hn hall hm
+  have lo := specWeight_pos f l h hm (hall h hm)
+  have hi := specWeight_le f l hn h
+  have d0 : l.countP (fun x => !f x) = 0 := by
+    rw [List.countP_eq_zero]
+    intro x hx
+    simp [hall x hx]
+  omega
+
+/-- non-vacuity: layer a, B, c, d with B down — a and d are the first host from one start position each, c from
+two (its own and B's): over 2 periods a, c, d are first 2, 4, 2 times -/
+example :
+    let l : List Host := [⟨1, 1, 0, 0, []⟩, ⟨2, 2, 0, 0, []⟩, ⟨3, 3, 0, 0, []⟩, ⟨4, 4, 0, 0, []⟩]
+    let f : Host → Bool := fun h => h.id != 2
+    [1, 3, 4].map (fun i => (List.range 8).countP (fun p => firstOf f (10 + 1 + p) l == some ⟨i, i, 0, 0, []⟩)) = [2, 4, 2] := by
+  decide
+
+/-- THE ROTATION SUB-CLAIM as the op `rotate` checks it, in every reachable state of every round-robin based
+policy alone (query without routing key) or as the fallback of the token-aware policy (any history of AddHost /
+RemoveHost / HostUp / HostDown / replica tables / KeyspaceChanged / earlier picks / counter presets), any up/down
+state — hosts that are down but still listed included —, any query, any shuffles (one per pick, each permuting),
+and ANY number `m` of successive `Pick`s each drained with nothing in between, below the counter bound of
+KF-C11-3: no iterator panics, and `rotateVerdict = none`, i.e. for EVERY tier `t` with `n` listed hosts of which
+`d` cannot be offered after the replica phases (down, or offered by the replica phases), every other host of
+the tier is the FIRST host offered from the tier by at least ⌊m/n⌋ and at most ⌈m/n⌉·(1+d) of the `m`
+iterators — with d = 0: every up host of the tier the same number of times ±1. -/
+theorem C11_rotation_balanced_partial (k : Kind) (ldc lrack : Nat) (sh nl ps : Bool) (sess : Option Nat) (ops : List TAOp)
+    (up : Nat → Bool) (σs : Nat → List Host → List Host) (hσ : ∀ i l, (σs i l).Perm l)
+    (rk : Option (Nat × Nat)) (m : Nat) :
+    let t := ops.foldl TA.apply (TA.new (Pol.new k ldc lrack) sh nl ps sess)
+    (∀ l ∈ t.pol.layers, t.pol.ctr + m + l.length < 9223372036854775808) →
+    (∀ r ∈ TA.rotateRun t up σs rk 0 m, r.2.crashed = false) ∧
+    (∀ r ∈ TA.rotateRun t up σs rk 0 m, ∃ j, j < m ∧
+        (t.withCtr (t.pol.ctr + j)).pickScan up (σs j) rk = ⟨r.1 ++ r.2.offered, r.2.crashed⟩) ∧
+    t.rotateVerdict up σs rk m = none := by
+  intro t hb
+  have hp : Inv t.pol := TAInv_run _ (Inv_new k ldc lrack) ops
+  have hc : t.pol.ctr + m < 18446744073709551616 := by
+    have : t.pol.layers ≠ [] := by unfold Pol.layers; split <;> simp
+    obtain ⟨l, hl⟩ := List.exists_mem_of_ne_nil _ this
+    have := hb l hl
+    omega
+  have main := rotateVerdict_none t hp up σs hσ rk m hb
+  refine ⟨main.1, ?_, main.2⟩
+  intro r hr
+  rw [rotateRun_eq up σs rk m t 0 hc, List.mem_map] at hr
+  obtain ⟨j, hj, rfl⟩ := hr
+  refine ⟨j, List.mem_range.mp hj, ?_⟩
+  rw [pickScan_parts, Nat.zero_add]
+
+
+/-- non-vacuity: 12 picks over 1/4/3, all up: balanced; with host 3 down but listed: balanced as well (host 4 is
+first 6 times, 2 and 5 three times each) -/
+example :
+    (TA.new rotP false false false).rotateVerdict (fun _ => true) (fun _ l => l) none 12 = none ∧
+    (TA.new rotP false false false).rotateVerdict (fun i => i != 3) (fun _ l => l) none 12 = none ∧
+    [2, 4, 5].map (fun i => firstHits rotP.tier 1
+      ((TA.rotateRun (TA.new rotP false false false) (fun i => i != 3) (fun _ l => l) none 0 12).map (·.2.offered))
+      ⟨i, i, 0, 1, []⟩) = [3, 6, 3] := by
+  decide
+
+/-! FULL CLAIM ("every up host of a tier is the first one offered from it the same number of times ±1") — holds
+with d = 0 (third part of `C11_rotation_histogram`: weight 1 for every host). The unchanged code does NOT satisfy
+it while a host of the tier is down but still listed, or was offered by the replica phases: the scan starts at
+every LISTED position equally often and skips forward, so the host after such hosts takes their turns as well
+(weight 1 + the length of the run before it). Proposed finding KF-C11-6 (low severity). -/
+
+/-- COUNTEREXAMPLE to the ±1 form with d > 0 (kernel-checked). (1) round-robin over a, B, c, d with B down but
+listed: over 8 successive picks a, c, d are the first host offered 2, 4, 2 times. (2) token-aware over round-robin,
+hosts 1..6, replicas 1, 2 of the query's token both offered by the replica phases: after them, over 12 successive
+picks of the same query, hosts 3, 4, 5, 6 come first 6, 2, 2, 2 times — the host listed after the replicas gets
+three times the share of the others. Both verdicts are `balanced` in the sense of `tierBalanced` (bounds with d). -/
+theorem C11_cex_down_listed_double_share :
+    (let l : List Host := [⟨1, 1, 0, 0, []⟩, ⟨2, 2, 0, 0, []⟩, ⟨3, 3, 0, 0, []⟩, ⟨4, 4, 0, 0, []⟩]
+     let t := TA.new { Pol.new .rr 0 0 with l0 := l } false false false
+     [1, 3, 4].map (fun i => firstHits t.pol.tier 0
+        ((TA.rotateRun t (fun i => i != 2) (fun _ l => l) none 0 8).map (·.2.offered)) ⟨i, i, 0, 0, []⟩) = [2, 4, 2] ∧
+     t.rotateVerdict (fun i => i != 2) (fun _ l => l) none 8 = none) ∧
+    (let l : List Host := [⟨1, 1, 0, 0, []⟩, ⟨2, 2, 0, 0, []⟩, ⟨3, 3, 0, 0, []⟩, ⟨4, 4, 0, 0, []⟩, ⟨5, 5, 0, 0, []⟩, ⟨6, 6, 0, 0, []⟩]
+     let t : TA := { TA.new { Pol.new .rr 0 0 with l0 := l } false false true with
+       hosts := l, replicas := [(0, [(100, [⟨1, 1, 0, 0, []⟩, ⟨2, 2, 0, 0, []⟩])])] }
+     t.headOf (fun _ => true) id (some (0, 50)) = [⟨1, 1, 0, 0, []⟩, ⟨2, 2, 0, 0, []⟩] ∧
+     [3, 4, 5, 6].map (fun i => firstHits t.pol.tier 0
+        ((TA.rotateRun t (fun _ => true) (fun _ l => l) (some (0, 50)) 0 12).map (·.2.offered)) ⟨i, i, 0, 0, []⟩) = [6, 2, 2, 2] ∧
+     t.rotateVerdict (fun _ => true) (fun _ l => l) (some (0, 50)) 12 = none) := by
+  decide
+
+/-- REGRESSION for the seeded change C11-8 (kernel-checked): the variant that reduces the shift modulo the size of
+the local rack before using it for every tier (`rrSeqReduced`). On the shape 1/4/3 all 12 drained sequences are
+still complete and tier ordered, but the local-DC tier always starts at the same host — the verdict is `skewed:1`;
+on 3/3/3 the variant is indistinguishable (balanced). -/
+theorem C11_reduced_shift_skewed :
+    let seqs := (List.range 12).map (fun p => rrSeqReduced (fun _ => true) (p + 1) [rotP.l0, rotP.l1, rotP.l2])
+    rotVerdict rotP.tier (fun _ => true) [rotP.l0, rotP.l1, rotP.l2] seqs = some 1 ∧
+    (∀ s ∈ seqs, s.length = 8) ∧
+    firstHits rotP.tier 1 seqs ⟨3, 3, 0, 1, []⟩ = 12 ∧
+    (let l3 : List Host := [⟨1, 1, 0, 0, []⟩, ⟨2, 2, 0, 0, []⟩, ⟨3, 3, 0, 0, []⟩]
+     rotVerdict (fun _ => 0) (fun _ => true) [l3] ((List.range 12).map (fun p => rrSeqReduced (fun _ => true) (p + 1) [l3])) = none) := by
   decide
 
 end C11
